@@ -65,6 +65,12 @@ def curated():
     # 13. read exactly at the end of a linked-block element whose last block is partly filled; read after seeking past the end
     S.append(("lb-eof2", [CREATE(16), HLCREATE(0, 0, 8, 2), WRITE(0, 5), READ(0, 4), SEEK(0, 5), READ(0, 1), ENDACC(0), CLOSE()]))
     S.append(("lb-seekpast", [CREATE(16), HLCREATE(0, 0, 4, 2), WRITE(0, 5), SEEK(0, 9), READ(0, 4), SEEK(0, 0), READ(0, 0), ENDACC(0), CLOSE()]))
+    # 14. one write that crosses from a full link table into an already existing next table and allocates a new block there
+    S.append(("lb-cross-table", [CREATE(16), HLCREATE(0, 0, 4, 2), WRITE(0, 12), ENDACC(0), STARTACC(0, 0, 3), SEEK(0, 4), WRITE(0, 12), ENDACC(0),
+                               STARTACC(0, 0, 1), READ(0, 0), ENDACC(0), CLOSE(), OPEN(DFACC_READ), GET(0), CHECKALL(), CLOSE()]))
+    # 15. tail block first, then the front in one write across two tables
+    S.append(("lb-tail-first", [CREATE(16), HLCREATE(0, 0, 4, 2), SEEK(0, 12), WRITE(0, 4), SEEK(0, 0), WRITE(0, 12), ENDACC(0), STARTACC(0, 0, 1), READ(0, 0), ENDACC(0),
+                              CLOSE(), OPEN(DFACC_READ), GET(0), CLOSE()]))
     return S
 
 def random_skeleton(rng):
